@@ -298,7 +298,8 @@ class StructTranslator:
             if fr.numerator > 2 ** 64:
                 raise Untranslatable("huge floating literal %s" % v)
             return "(%d : K)" % fr.numerator
-        if fr.denominator > 2 ** 20 or abs(fr.numerator) > 2 ** 64:
+        # every finite double is a dyadic rational; DBL_EPSILON = 1/2^52, DBL_MIN = 1/2^1022 etc. are written out exactly
+        if abs(fr.numerator) > 2 ** 64:
             raise Untranslatable("floating literal %s is not a small dyadic rational" % v)
         return "((%d : K) / %d)" % (fr.numerator, fr.denominator)
 
